@@ -49,14 +49,14 @@ fn check_preorder<const N: usize>(ids: &[Ty; N], r: &[[bool; N]; N]) {
     }
 }
 
-const S_SEQ: [Ty; 12] = [T_NEVER, T_INT, T_FLOAT, T_ANY, T_U_INT_FLOAT, T_U_INT_FLOAT_STR, T_ARR_INT, T_ARR_FLOAT, T_ARR_U_INT_FLOAT, T_U_ARRS, T_ARR_ANY, T_ARR_NEVER];
-const S_PROD: [Ty; 12] = [T_TUP_INT_FLOAT, T_TUP_INT_INT, T_TUP_ANY_INT, T_TUP_U_INT, T_U_TUPS, T_TUP1_INT, T_ST_A_INT, T_ST_AB, T_ST_A_ANY, T_ST_A_U, T_U_STRUCTS, T_ST_AB_ANY];
-const S_FUN: [Ty; 12] = [T_FUN_INT_FLOAT, T_FUN_ANY_INT, T_FUN0_INT, T_FUN_U_INT, T_FUN_INT_U, T_FUN_U_U, T_U_FUNS, T_ITER_INT, T_MUT_INT, T_MUT_FLOAT, T_MUT_U_INT_FLOAT, T_U_MUTS];
+const S_SEQ: [Ty; 10] = [T_NEVER, T_INT, T_ANY, T_U_INT_FLOAT, T_U_INT_FLOAT_STR, T_ARR_INT, T_ARR_U_INT_FLOAT, T_U_ARRS, T_ARR_ANY, T_ARR_NEVER];
+const S_PROD: [Ty; 10] = [T_TUP_INT_INT, T_TUP_ANY_INT, T_TUP_U_INT, T_U_TUPS, T_TUP1_INT, T_ST_A_INT, T_ST_AB, T_ST_A_U, T_U_STRUCTS, T_ST_AB_ANY];
+const S_FUN: [Ty; 10] = [T_FUN_INT_FLOAT, T_FUN_ANY_INT, T_FUN0_INT, T_FUN_U_INT, T_FUN_INT_U, T_FUN_U_U, T_U_FUNS, T_MUT_INT, T_MUT_U_INT_FLOAT, T_U_MUTS];
 
 macro_rules! preorder {
     ($name:ident, $set:expr, $policy:expr) => {
         #[kani::proof]
-        #[kani::unwind(14)]
+        #[kani::unwind(12)]
         #[kani::stub(alloc::fmt::format, crate::verif_common::stub_format)]
         pub fn $name() {
             set_order($policy);
@@ -125,7 +125,7 @@ pub fn variance_of_constructors_rev() {
 
 /// union: upper bound of its members (whatever the insertion order, also when a member is a
 /// supertype of a later one), least such: A|B <= C  <=>  A <= C and B <= C; `|=` agrees with `|`
-const S_JOIN: [Ty; 8] = [T_INT, T_FLOAT, T_ARR_INT, T_ARR_ANY, T_U_INT_FLOAT, T_ARR_U_INT_FLOAT, T_ANY, T_NEVER];
+const S_JOIN: [Ty; 6] = [T_INT, T_ARR_INT, T_ARR_ANY, T_U_INT_FLOAT, T_ANY, T_NEVER];
 macro_rules! union_laws {
     ($name:ident, $policy:expr) => {
         #[kani::proof]
@@ -133,11 +133,11 @@ macro_rules! union_laws {
         #[kani::stub(alloc::fmt::format, crate::verif_common::stub_format)]
         pub fn $name() {
             set_order($policy);
-            let ts: [Type; 8] = core::array::from_fn(|i| real(S_JOIN[i]));
+            let ts: [Type; 6] = core::array::from_fn(|i| real(S_JOIN[i]));
             let mut i = 0;
-            while i < 8 {
+            while i < 6 {
                 let mut j = 0;
-                while j < 8 {
+                while j < 6 {
                     let u = ts[i].clone() | ts[j].clone();
                     assert!(ts[i].matches(&u) && ts[j].matches(&u));
                     let mut v = ts[i].clone();
@@ -146,7 +146,7 @@ macro_rules! union_laws {
                     let w = ts[j].clone() | ts[i].clone();
                     assert!(equiv(&u, &w)); // commutative up to equivalence
                     let mut k = 0;
-                    while k < 8 {
+                    while k < 6 {
                         let both = ts[i].matches(&ts[k]) && ts[j].matches(&ts[k]);
                         assert!(u.matches(&ts[k]) == both);
                         k += 1;
@@ -185,7 +185,7 @@ pub fn union_keeps_every_member() {
 }
 
 /// meet: conjoin(A, B) is a lower bound of A and of B
-const S_MEET: [Ty; 12] = [T_INT, T_ANY, T_U_INT_FLOAT, T_U_INT_STR, T_ARR_INT, T_ARR_U_INT_FLOAT, T_TUP_INT_INT, T_TUP_U_INT, T_MUT_U_INT_FLOAT, T_MUT_U_INT_STR, T_FUN_U_INT, T_FUN_INT_U];
+const S_MEET: [Ty; 10] = [T_INT, T_ANY, T_U_INT_FLOAT, T_U_INT_STR, T_ARR_INT, T_ARR_U_INT_FLOAT, T_MUT_U_INT_FLOAT, T_MUT_U_INT_STR, T_FUN_U_INT, T_FUN_INT_U];
 macro_rules! meet_laws {
     ($name:ident, $policy:expr) => {
         #[kani::proof]
@@ -193,11 +193,11 @@ macro_rules! meet_laws {
         #[kani::stub(alloc::fmt::format, crate::verif_common::stub_format)]
         pub fn $name() {
             set_order($policy);
-            let ts: [Type; 12] = core::array::from_fn(|i| real(S_MEET[i]));
+            let ts: [Type; 10] = core::array::from_fn(|i| real(S_MEET[i]));
             let mut i = 0;
-            while i < 12 {
+            while i < 10 {
                 let mut j = 0;
-                while j < 12 {
+                while j < 10 {
                     let c = ts[i].conjoin(&ts[j]);
                     assert!(c.matches(&ts[i]));
                     assert!(c.matches(&ts[j]));
